@@ -1,2 +1,3 @@
 import Model.Bytes
 import Model.Data
+import Model.Reply
